@@ -5,7 +5,7 @@ PROP = "C11"
 DRIVER = "drv_layers"
 LEAN_MODULES = ["MesaModel.Props.C11", "MesaModel.Props.C18Layers"]
 _T = [
-    "C11_reach_iff_history", "C11_two_views_one_value", "C11_cell_write_read_through_layer",
+    "C11_reach_iff_history", "C11_descriptors_are_the_layer_dict", "C11_two_views_one_value", "C11_cell_write_read_through_layer",
     "C11_layer_write_read_through_cell", "C11_value_changes_only_by_writes", "C11_read_after_write_persists",
     "C11_set_cells_pointwise", "C11_modify_cells_pointwise", "C11_attached_layers_have_entries",
     "C11_set_in_place_modify_repoints", "C11_modify_cell_pointwise", "C11_write_through_live_reference",
